@@ -613,6 +613,19 @@ class StubGatewayConnectionError(IOError):
     """Stands for requests.ConnectionError / aiohttp client errors registered through handle_on()."""
 
 
+class StubAioConnectionError(Exception):
+    """Connection error type of a second client library whose hook shares the same FailSafe."""
+
+
+class StubTornadoConnectionError(Exception):
+    """... and of a third one."""
+
+
+# Interceptor.set_hooks() builds one hook per installed client library around ONE FailSafe; each hook registers
+# its library's connection errors through handle_on(). A failure of any registered type comes from the gateway.
+HOOK_EXC = (StubAioConnectionError, StubGatewayConnectionError, StubTornadoConnectionError)
+
+
 class AppError(Exception):
     pass
 
@@ -628,13 +641,18 @@ ERR_CODES = ("1", "2", "3", "4", "5", "99", "")
 
 
 class BreakerHarness:
-    def __init__(self, threshold, cooldown):
+    def __init__(self, threshold, cooldown, hooks=1):
         CLOCK.reset()
         self.case = {"T": threshold, "C": cooldown, "steps": []}
+        if hooks != 1:
+            self.case["hooks"] = hooks
         self.ref = RefBreaker(threshold, cooldown)
         self.fs = build_fail_safe(threshold, cooldown)
+        # one registration per hook, in the order set_hooks() builds them
+        self.hook_exc = HOOK_EXC[:hooks] if hooks > 1 else (StubGatewayConnectionError,)
         with SUT:
-            self.fs.handle_on((StubGatewayConnectionError,))
+            for exc in self.hook_exc:
+                self.fs.handle_on((exc,))
         self.n_calls = self.n_gateway = self.n_bypass = self.n_app = self.n_swallowed = 0
 
     def _state_ok(self, where):
@@ -685,7 +703,8 @@ class BreakerHarness:
                         elif outcome == "hdr":
                             fs.validate_headers({"content-type": "text/plain", "x-lunar-error": code})
                         elif outcome == "conn":
-                            raise StubGatewayConnectionError("connection to the gateway failed")
+                            # the connection error of one of the client libraries whose hook registered it
+                            raise self.hook_exc[len(self.case["steps"]) % len(self.hook_exc)]("connection to the gateway failed")
                         else:
                             raise app_exc
         except BaseException as e:  # noqa: BLE001
@@ -755,7 +774,7 @@ class BreakerHarness:
 
 
 def replay_breaker(case, cls=BreakerHarness):
-    h = cls(int(case["T"]), int(case["C"]))
+    h = cls(int(case["T"]), int(case["C"]), int(case.get("hooks", 1))) if cls is BreakerHarness else cls(int(case["T"]), int(case["C"]))
     for s in case["steps"]:
         if s[0] == "adv":
             h.advance(float(s[1]))
@@ -1318,9 +1337,11 @@ def test_breaker_machine(checks, seed_value):
             super().__init__()
             self.h = None
 
-        @initialize(threshold=st.integers(1, 5), cooldown=st.integers(1, 10))
-        def configure(self, threshold, cooldown):
-            self.h = BreakerHarness(threshold, cooldown)
+        @initialize(threshold=st.integers(1, 5), cooldown=st.integers(1, 10), hooks=st.sampled_from([1, 1, 2, 3]))
+        def configure(self, threshold, cooldown, hooks):
+            self.h = BreakerHarness(threshold, cooldown, hooks)
+            if hooks > 1:
+                REC.cls("several hooks registered on one fail-safe")
 
         @rule(a=call_args)
         def call(self, a):
